@@ -46,6 +46,7 @@ class Gen:
         self.r, self.arch, self.c04 = rng, arch, c04
         self.ops = ["init %s %s" % (arch, "-" if init_base is None else "%x" % init_base)]
         self.nl, self.ns, self.bound = 0, 1, set()
+        self.known_base = init_base is not None
         if c04:
             # all user sections first: `.addrtab` is created implicitly by the first patchable jmp/call and must not be
             # mistaken for a user section by a later `section <id>`
@@ -73,7 +74,7 @@ class Gen:
             if r.random() < 0.55:
                 self.ops.append("jmp %s %s %d" % (r.choice(JK), r.choice("dddsl"), l))
             else:
-                d = r.choice((0, 0, 4, 8, -4, 0x10, 0x7FFF, -0x8000, 0x12345, -0x12345, 0x3FFFFFFF, -0x40000000)) & 0xFFFFFFFF
+                d = r.choice((0, 0, 4, 8, -4, 0x10, 0x7FFF, -0x8000, 0x12345, -0x12345, 0x3FFFFFFF, -0x40000000, 0x7FFFFFFF, -0x80000000, -0x7FFFFFFC, -0x7FFFFFF8)) & 0xFFFFFFFF
                 self.ops.append("mem %s %d %x" % (r.choice(MK), l, d))
 
     def absref(self):
@@ -129,7 +130,10 @@ class Gen:
             self.ops.append("align %d" % r.choice((4, 8, 16, 64)))
         else:
             # (no `resolve` in the middle: resolving against a layout that later emissions invalidate is a usage error)
-            self.ops.append(r.choice(("flatten", "flatten", "bind 99", "jmp jmp d 99" if self.arch != "a64" else "a64 b 99 0",
+            # with the base known at init a premature flatten makes the assembler encode absolute targets against a layout that
+            # later emissions invalidate (usage error, like a premature resolve): only programs without a known base flatten early
+            early = "align 8" if self.known_base else "flatten"
+            self.ops.append(r.choice((early, early, "bind 99", "jmp jmp d 99" if self.arch != "a64" else "a64 b 99 0",
                                       "elabel 99 8", "section 9", "newsection 3 0" if not self.c04 else "align 5", "align 3", "elabel 0 3")))
 
     def finish(self, base, bind_rest=0.85):
@@ -384,7 +388,8 @@ def prepare(res, pid, mods):
     return vlib.build_harness("c03"), broken
 
 
-ASSUMPTIONS = ["programs call resolve_cross_section_fixups only after the final flatten (resolving against a stale layout is a usage error); "
+ASSUMPTIONS = ["programs call resolve_cross_section_fixups only after the final flatten, and programs assembled with a known base do not flatten before the end "
+               "(resolving / encoding absolute targets against a layout that later emissions invalidate is a usage error); "
                "user code never switches to the implicit .addrtab section (harness and model answer InvalidSection)",
                "code buffers are byte lists: capacity, realloc and grow_buffer are invisible; emission is append-only (no set_offset)",
                "non-field instruction bytes come from a menu of shapes (compared byte for byte with the real encoders, not proved: C01/C02)",
